@@ -455,17 +455,24 @@ THOROUGH = QUICK + [("jq255e", 48, n, d) for n in (1, 8) for d in (0, 1, 63, 64,
 
 def run(tier, only=None):
     from . import C09_ecdh as EC
+    from . import C09_sign as SG
     t0 = time.time()
-    shapes = [s for s in (QUICK if tier == "quick" else THOROUGH) if not only or s[0] in only]
-    eshapes = [s for s in (EC.QUICK if tier == "quick" else EC.THOROUGH) if not only or s[0] in only]
-    built = build(drivers(shapes) + EC.drivers(eshapes), tag="C09-cut", cut=True)
+    # --only sign: the signing-side obligations alone; curve names restrict every family
+    sign_only = bool(only) and "sign" in only
+    conly = [o for o in (only or []) if o != "sign"]
+    shapes = [] if sign_only else [s for s in (QUICK if tier == "quick" else THOROUGH) if not conly or s[0] in conly]
+    eshapes = [] if sign_only else [s for s in (EC.QUICK if tier == "quick" else EC.THOROUGH) if not conly or s[0] in conly]
+    sshapes = [s for s in (SG.QUICK if tier == "quick" else SG.THOROUGH) if not conly or s[0] in conly]
+    built = build(drivers(shapes) + EC.drivers(eshapes) + SG.drivers(sshapes), tag="C09-cut", cut=True)
     timeout = 60 if tier == "quick" else 300
-    items = [("v", s) for s in shapes] + [("e", s) for s in eshapes]
+    items = [("v", s) for s in shapes] + [("e", s) for s in eshapes] + [("s", s) for s in sshapes]
 
     def work(it):
         T.reset()
         if it[0] == "v":
             return check_shape(built, it[1], timeout)
+        if it[0] == "s":
+            return SG.check_sign(built, it[1], timeout)
         return EC.check_shape(built, it[1], timeout)
     res = pmap(work, items, nproc=NCPU, timeout=timeout * 20)
     obs = []
@@ -473,19 +480,31 @@ def run(tier, only=None):
         if st == "ok":
             obs.extend(val)
         else:
-            o = Obligation("default:%s.%s%s" % (it[1][0], "verify" if it[0] == "v" else "ECDH", list(it[1][1:])), "L")
+            o = Obligation("default:%s.%s%s" % (it[1][0], {"v": "verify", "e": "ECDH", "s": "sign"}[it[0]], list(it[1][1:])), "L")
             o.unknown("%s: %s" % (st, str(val)[-400:]))
             obs.append(o)
     built.close()
     return finish("C09", tier, obs, t0,
                   functions_encoded=sorted(set(fn for o in obs for fn in o.functions)),
                   bounds={"shapes (curve, signature length, hash-name length, data length)": [list(s) for s in shapes],
+                          "sign_shapes (curve, det|seeded|rand, seed length, hash-name length, data length)": [list(s) for s in sshapes],
                           "build": "optimized IR with --cfg pornin_crrl_verif_cut"},
                   stubs={"Point::set_decode": "fresh point + status bit (C06/C19)",
-                         "ModInt256::set_decode32": "fresh scalar + status bit (C05)",
+                         "ModInt256::set_decode32": "fresh scalar + status bit (C05); in the sign_then_verify runs: success "
+                                                    "(the signer's s.encode() is canonical: C05)",
                          "Point::set_mul128_add_mulgen_vartime": "fresh point = [c]P + [s]B (C10)",
-                         "Point::encode": "fresh 32 bytes (C06)",
-                         "Blake2s::process_block": "uninterpreted compression function (C17)"},
-                  assumptions=["the stubs' contracts are decided by the checks named in `stubs`"],
-                  outside=["signing functions: not posed",
+                         "Point::encode": "fresh 32 bytes (C06); in the sign_then_verify runs the verifier-side call returns the "
+                                          "signer's encode(R) (premise R' = R)",
+                         "Blake2s::process_block": "uninterpreted compression function (C17)",
+                         "ModInt256::set_decode_reduce (signing side)": "fresh scalar = digest mod r (C05)",
+                         "Point::set_mulgen (signing side)": "fresh point = [k]B (C04)"},
+                  assumptions=["the stubs' contracts are decided by the checks named in `stubs`",
+                               "signing side: Scalar::encode / from_u128 / from_u64 / add / mul are the real inlined code, compared by term "
+                               "identity with reference drivers applying the same library operations to the stub outputs (ring semantics: C05)",
+                               "seed / name / data lengths beyond the listed shapes follow the same code path (lengths only drive the hash buffering: C17)"],
+                  outside=["that a signature so produced is accepted needs, beyond the two signing-side obligations and the verify obligations, "
+                           "the group identity [s]B - [c']Q = [k]B for s = k + c'*d, Q = [d]B (contracts of mulgen and mul128/mul64mu_add_mulgen: "
+                           "C04/C10) and canonical encodings (C05/C06): mathematics over the stubs' contracts, not decided here",
+                           "sign_randomized: the RNG is modelled as delivering 32 arbitrary bytes through fill_bytes (any RngCore implementation "
+                           "that does so); the stored public key bytes are arbitrary (not tied to the secret scalar)",
                            "that -Q is the group negation (C03): only 'derived from the decoded key alone' is checked structurally"])
